@@ -24,6 +24,7 @@ from ..codec import wire_positions
 from ..lib import CheckResult, Violation
 from ..tmpl import g
 
+M_GEN = 3                # level at which TLC generates the targets (Clifford+T ring Z[zeta_8][1/2])
 M = 5                    # ring level: angles are multiples of pi/8 (RZ/RY half angles pi/16 exact)
 TOL = 1e-7
 LABELS = ["a", 3, "c", 0, "e", 7, "g", 11, "q", 5, "x", 9, "z", 13, "y2", 21]
@@ -72,7 +73,7 @@ def target_circuits(tier, seed):
         add(k, tmpl.random_clifford_t(rng, k, rng.randint(3, 8)), "random")
     # ArbitraryStatePreparation: the docstring's Pauli-word rotation sequence at lattice weights (known parameters)
     for i in range(2 if tier == "quick" else 8):
-        ws = [rng.choice([2, 4, 6, 8, 12, 20, 3, 1]) for _ in range(6)]
+        ws = [rng.choice([1, 2, 3, 5, 7, 1, 3]) for _ in range(6)]      # multiples of pi/2 (level-3 lattice)
         add(2, [tmpl.rec("PauliRot", [1, 2], [a], [PW[c] for c in w]) for a, w in zip(ws, ["XI", "YI", "IX", "IY", "XX", "XY"])],
             "asp:" + ",".join(map(str, ws)))
     return out
@@ -138,7 +139,7 @@ def build_instances(tier, seed, targets, mps_data):
         sup = _support(phi_f)
         dense_desc = {"phi": phi_r, "pick": [], "bases": [], "tens": []}
         if fam.startswith("asp:"):
-            ws = [lib.angle_of(int(a), M) for a in fam[4:].split(",")]
+            ws = [lib.angle_of(int(a), M_GEN) for a in fam[4:].split(",")]
             w = labels(2)
             add("ArbitraryStatePreparation", "doc-words", lambda w=w, ws=ws: qp.ArbitraryStatePreparation(np.array(ws), wires=w), w, 2,
                 "dense", dense_desc, "exact", ti, fam)
@@ -344,15 +345,16 @@ def run(tier, seed):
 
     # ---- phase 1: TLC generates the exact targets
     tc = target_circuits(tier, seed)
-    ring, flt, st1 = tmpl.exact_states("C57", [(k, c) for k, c, _ in tc], M)
-    targets = [(k, fam, ring[i], flt[i]) for i, (k, c, fam) in enumerate(tc)]
     c2, c1 = mps_unitary_circuits(tier, seed)
-    u2r, u2f, st2 = tmpl.exact_unitaries("C57", c2, M, name="mps_u2")
-    u1r, u1f, st3 = tmpl.exact_unitaries("C57", c1, M, name="mps_u1")
+    items = [(k, c, "state") for k, c, _ in tc] + [(k, c, "unitary") for k, c in c2 + c1]
+    ring, flt, st1 = tmpl.exact_targets("C57", items, M_GEN, M)
+    targets = [(k, fam, ring[i], flt[i]) for i, (k, c, fam) in enumerate(tc)]
+    o2, o1 = len(tc), len(tc) + len(c2)
+    u2 = list(zip(ring[o2:o1], flt[o2:o1]))
+    u1 = list(zip(ring[o1:], flt[o1:]))
     two_qubit_states = [(ring[i], flt[i]) for i, (k, c, fam) in enumerate(tc) if k == 2 and not fam.startswith("asp")]
-    states = st1["distinct"] + st2["distinct"] + st3["distinct"]
-    trans = st1["generated"] + st2["generated"] + st3["generated"]
-    inst = build_instances(tier, seed, targets, (two_qubit_states, list(zip(u2r, u2f)), list(zip(u1r, u1f))))
+    states, trans = st1["distinct"], st1["generated"]
+    inst = build_instances(tier, seed, targets, (two_qubit_states, u2, u1))
 
     # ---- phase 2: run the templates, record what they emit
     viol, cases, owners = [], [], []          # owners[i] = (instance index, source name) of TLC case i
